@@ -1461,6 +1461,7 @@ FUNC_OF_CHECK = {
     "epub.tables": "epub_extractor.py::read_epub.iterate_tables",
     "odp.tables": "odp_extractor.py::read_odp.iterate_tables",
     "epub.source": "epub_extractor.py::read_epub",
+    "rtf.unicode": "rtf_extractor.py::_decode_unicode_run",
 }
 
 
